@@ -1,14 +1,19 @@
 /-
   Driver for C03. Line = "(live ((crit host)…) victim kind instant)<TAB>implObs", see
   harness/props/c03. The model is the code AS IT IS (`Failure.codeCfg`: the watcher's channel
-  has a buffer of one, the root's state is re-read after every receive); its observation is
+  has a buffer of one, the root's state is re-read after every receive; TASK_INTERNAL_ERROR tells
+  the task's role ERROR in every environment state and requests STOP_ACTIVITY only for a critical
+  task of a RUNNING environment); its observation is
   computed under the wall-clock schedule (`Failure.settle`; the watcher goroutine consumes
   what is put into its channel at once: `Failure.drain` after every constructed step).
   Monitor style only where the real schedule is not determined (racelate, burst): the answer
   is the variant the implementation's observation equals (the first by default).
   An ERROR of the root that never reaches the environment (the former finding
   notify_dropped, fixed) is no variant of the model any more: it is a disagreement with
-  spec = 0, i.e. a plain VIOLATION.
+  spec = 0, i.e. a plain VIOLATION. The same holds for the two former findings about
+  TASK_INTERNAL_ERROR (internal_error_ignored_unless_running, internal_error_noncritical_stops_run,
+  both fixed): a critical task's internal error that does not end in ERROR, or a non-critical
+  one's that changes the environment's state, is reported with hyp `-`.
   Kinds R… with instants drop / dropabrupt: the victim(s) died while the core was cut off
   from the master and the terminal state arrived only as the reconciliation answer after the
   re-subscription; the environment is idle, so the model's input is `fail k` on the deployed
@@ -36,6 +41,20 @@
   the root's merge(ERROR) and its `parent.updateState(r.state.get())`) — the model keeps
   `updState` atomic; the late-subscription schedule stands for both. Without `(pending …)`
   none of this is offered: env ≠ ERROR is then a plain VIOLATION as before.
+  Burst only, `(again ST)` in the observation (harness/props/c03/again.go): a critical victim did
+  not take the environment to ERROR and the harness delivered ONE more failure (TASK_FAILED about
+  the victim, alone, after everything had settled); the field is `(again ST TOLD)`: ST = the
+  environment's state after that, TOLD = 1 iff the core had published, after the main injection, a
+  role event saying that the victim's role went to ERROR (the update happened, and was overwritten
+  afterwards — a core that never tells the role, e.g. one that ignores the device event in some
+  environment state, shows TOLD = 0 and matches no variant).
+  Only then the monitor offers the variant "the failure's update of the role was overwritten by
+  the victim's own reply before the root looked" (`Failure.failOneLost`: the code's non-atomic
+  `updateTaskState`; the model keeps `updState` atomic, so this is constructed, not a schedule):
+  the watcher is still in its loop, so the model's field is `(again ERROR 1)`
+  (`C03_overwritten_update_keeps_watcher`). spec = 0 there, hyp `stale_update_overwrites_error`.
+  A core whose watcher did receive the ERROR and then did nothing shows the same picture with
+  `(again <healthy state>)`: no variant, plain VIOLATION.
   Optional sixth input field = bystander groups `((pos own ((crit host)…))…)`: the roster holds,
   before / after the main environment's tasks, the tasks of another environment that is alive
   (`env`, CONFIGURED) or was destroyed with keepTasks (`loose`: no parent role). The failure
@@ -234,7 +253,7 @@ def applyTask (s : Sys) (i : Nat) : Sys :=
     else that is enabled (racelate: the watcher's GO_ERROR is already waiting for the mutex).
     (The `ready` bits of the model's inputs play no role on a buffered channel.) -/
 def finalSys (sc : Scen) (finishFirst : Bool := false) (modes : List Nat := []) (late : Bool := false)
-    (pend : List Nat := []) (stale : Nat := 0) : Option Sys :=
+    (pend : List Nat := []) (stale : Nat := 0) (lost : Bool := false) : Option Sys :=
   let base := mkSys sc (if sc.instant == "idle" then pend else [])
   -- race / racelate / raceself with `pend`: replies that had been sent but whose state update had not run when the
   -- harness looked: `stale` = 0: they run before the failure all the same; 1: after it
@@ -284,13 +303,15 @@ def finalSys (sc : Scen) (finishFirst : Bool := false) (modes : List Nat := []) 
     let s3 := irun cfg s2 ((indices sc).map (fun _ => Label.arrive))
     let s3 := early.foldl applyTask s3
     let s3 := if finishFirst then istep cfg s3 .finish else s3
-    let s4 := fail sc.kind s3 vs
+    -- `lost` (one victim; only offered with the harness' `(again …)` evidence): the failure's update of the role's
+    -- state is overwritten by the victim's own reply before the root looks — `failOneLost`
+    let s4 := if lost then drain cfg (failOneLost cfg sc.kind s3 (path sc.victim)) else fail sc.kind s3 vs
     let s5 := lateV.foldl (fun (s : Sys) (x : Nat × Nat) =>
       let own := ownState s (path x.1) (roleStateAt s.f (path x.1))
       let s' := applyTask s x.1
-      let s' := if (x.2 == 2 || x.2 == 4) && !(effect sc.kind s3.env.st).roleOnly then { s' with roleOnly := (path x.1, own) :: s'.roleOnly } else s'
+      let s' := if (x.2 == 2 || x.2 == 4) && !(effect cfg sc.kind s3.env.st (critOf sc x.1)).roleOnly then { s' with roleOnly := (path x.1, own) :: s'.roleOnly } else s'
       -- 3, 4: as 1, 2, but the failure's forward to the root (`parent.updateState(ERROR)`: no recompute) comes last
-      if (x.2 == 3 || x.2 == 4) && critOf sc x.1 && (effect sc.kind s3.env.st).st == some TState.ERROR then
+      if (x.2 == 3 || x.2 == 4) && critOf sc x.1 && (effect cfg sc.kind s3.env.st (critOf sc x.1)).st == some TState.ERROR then
         match s'.f with
         | .agg _ su kids next => { s' with f := .agg .ERROR su kids next }
         | _ => s'
@@ -324,7 +345,11 @@ def insertNat (x : Nat) : List Nat → List Nat
 
 def sortNats (xs : List Nat) : List Nat := xs.foldl (fun acc x => insertNat x acc) []
 
-def obsOf (sc : Scen) (s : Sys) (pend : List Nat := []) : SExp :=
+/-- The follow-up probe on the model: TASK_FAILED about the victim, delivered alone to the settled system. -/
+def againOf (sc : Scen) (s : Sys) : St :=
+  (settle cfg 96 (drain cfg (Failure.fail cfg .FAILED s [(path sc.victim, true)]))).env.st
+
+def obsOf (sc : Scen) (s : Sys) (pend : List Nat := []) (again : Bool := false) : SExp :=
   let log := if racing sc && (s.log.any isBody) && s.transRes.isSome then dropToBody s.log else s.log
   let roles := (leaves s.f).map fun l => SExp.list [.atom l.2.1.name, .atom l.2.2.name]
   let trans := match s.transRes with
@@ -342,7 +367,9 @@ def obsOf (sc : Scen) (s : Sys) (pend : List Nat := []) : SExp :=
     .list [.atom "stamps", SExp.ofBool (isVal s.env.vars.soeor), SExp.ofBool (isVal s.env.vars.eoeor)],
     .list [.atom "stops", natsSx (sortNats (s.stopped.filterMap fun p => p.getLast?))],
     .list [.atom "trans", .atom trans]] ++
-    (if sc.groups.isEmpty then [] else [.list [.atom "by", .list (byObs sc)]]))
+    (if sc.groups.isEmpty then [] else [.list [.atom "by", .list (byObs sc)]]) ++
+    -- `1`: the victim's role had published ERROR (the update happened, and was overwritten afterwards)
+    (if again then [.list [.atom "again", .atom (againOf sc s).name, SExp.ofBool true]] else []))
 
 /-! ### Spec on what the implementation reported -/
 
@@ -402,10 +429,8 @@ def hypOf (sc : Scen) (impl : SExp) : String :=
   if anyCrit sc then
     if env == "ERROR" then "-"
     else if sc.kind.direct = .FINISHED then "finished_not_error"
-    else if sc.kind = .INTERNAL then "internal_error_ignored_unless_running"
     else "-"
-  else
-    if sc.kind = .INTERNAL ∧ atom1 impl "env" == "CONFIGURED" then "internal_error_noncritical_stops_run" else "-"
+  else "-"
 
 def processLine (line : String) : String :=
   match SExp.fields line with
@@ -424,7 +449,7 @@ def processLine (line : String) : String :=
         let oR := toString (obsOf sc sr pend)
         -- the watcher goroutine may still be starting only if a critical victim's own update is among the pending
         -- ones and the failure is of a kind that puts the role into ERROR
-        let lateOK := sc.instant == "idle" && pend.any (fun i => (victims sc).contains i && critOf sc i) && sc.kind.drives sc.live
+        let lateOK := sc.instant == "idle" && pend.any (fun i => (victims sc).contains i && critOf sc i) && sc.kind.drives cfg sc.live
         let staleLate : List String :=
           if lateOK then [2, 3].filterMap fun m => (finalSys sc false [] false pend m).map (fun x => toString (obsOf sc x pend)) else []
         let staleSub : List String :=
@@ -444,13 +469,22 @@ def processLine (line : String) : String :=
             -- the watcher's GO_ERROR already waits for the mutex: it can run before the held reply's state update
             ((finalSys sc false [] true pend 0).map (fun x => toString (obsOf sc x pend))).toList ++ staleSub
           else staleSub ++ staleLate
-        let vR := oR :: variants
+        -- burst with the follow-up evidence: the victim's failure was overwritten before the root looked
+        let hasAgain := match (SExp.parse impl).bind (fun io => field io "again") with
+          | some _ => true
+          | none => false
+        let lostV : List String :=
+          if sc.instant == "burst" && hasAgain && (victims sc).length == 1 && anyCrit sc then
+            [false, true].filterMap fun ff => (finalSys sc ff [] false [] 0 true).map (fun x => toString (obsOf sc x [] true))
+          else []
+        let vR := oR :: (variants ++ lostV)
         let model := if vR.contains impl then impl else oR
         match SExp.parse impl with
         | some io =>
           let spec := specOn sc io
           let hyp := if spec then "-"
             else if staleLate.contains impl && !(oR :: staleSub).contains impl then "stale_update_overwrites_error"
+            else if lostV.contains impl && !(oR :: variants).contains impl then "stale_update_overwrites_error"
             else hypOf sc io
           s!"{model}\t{if spec then 1 else 0}\t{hyp}"
         | none => s!"{model}\t0\t-"
